@@ -149,18 +149,18 @@ Definition spec_encode (v : ver) (e : endian) (t : ty) (x : val) : list Z :=
 
 (* ---------------------------------------------------------------- scope of the comparison *)
 Definition is_wstr (t : ty) : bool := match t with TWStr => true | _ => false end.
-(* outside the subset on which implementation and specification encoder are PROVED equal:
-   unions and mutable types (not compared at all), wide strings (rule (4) read differently),
-   XCDR1 optional members (alignment origin after the parameter) *)
+(* outside the subset on which implementation and specification encoder are PROVED equal and the
+   implementation reads the bytes back: unions and mutable types (not compared at all), wide
+   strings (rule (4) read differently), and in XCDR1 the optional members the short parameter
+   encoding cannot carry (empty values: C09 class 5; ids >= 2^14: not supported) *)
 Definition cbad (V : ver) (t : ty) : bool :=
   is_union t || is_mutable t || is_wstr t ||
-  (match V with V1 => has_opt_member t | V2 => false end).
+  (match V with V1 => opt_empty_trap t || pl_long t | V2 => false end).
 Definition common (V : ver) (t : ty) : bool := wf_ty t && negb (ty_any (cbad V) t).
 
 (* classes of differences recorded for C10 (0 = none).  Classes 1 (char8 >= 0x80 written as
-   UTF-8) and 4 (XCDR1 float128 not read back) were repaired in /repo (c6ffb24, 0b5427b); the
-   remaining numbers are kept:   2 wide string format   3 XCDR1 optional member origin *)
+   UTF-8), 3 (XCDR1 optional member: alignment origin not popped) and 4 (XCDR1 float128 not read
+   back) were repaired in /repo (c6ffb24, addc370, 0b5427b); the remaining number is kept:
+   2 wide string format *)
 Definition c10_class (v : ver) (t : ty) (x : val) : N :=
-  if ty_any is_wstr t then 2%N
-  else if (match v with V1 => true | V2 => false end) && ty_any has_opt_member t then 3%N
-  else 0%N.
+  if ty_any is_wstr t then 2%N else 0%N.
